@@ -256,6 +256,10 @@ def binop_cases(rng, prefix, ops, n_small, n_rand, followup=False, scalars=SCALA
             g = rand_leaf(rng, vals=POW2V if op == "div" else None)
             if op == "div" and shape == "cs":
                 f = rand_leaf(rng, vals=POW2V)
+            if op != "div" and i % 10 == 7:      # neighbouring values that are nearly equal (relative 1e-6) or tiny (2^-30): genuine steps
+                f = rand_leaf(rng, vals=NEAR_VALS)
+                if rng.random() < 0.5:
+                    g = rand_leaf(rng, vals=NEAR_VALS)
         ca, cb = closed_pair(rng)
         add(f, g, op, shape, ca, cb, "small" if i < n_small else "rand")
     return cases
@@ -275,7 +279,32 @@ def gen_C01(rng, tier):
 
 def gen_C04(rng, tier):
     n = 1500 if tier == "quick" else 12000
-    return binop_cases(rng, "C04", C.REL, n, n, followup=True)
+    cases = binop_cases(rng, "C04", C.REL, n, n, followup=True)
+    # operands of very different magnitude (multiples of 2^53 against small integers): the comparison is of the values, not of
+    # the sign of a difference that binary64 cannot hold
+    huge = [F(2 ** 53), F(2 ** 54), F(-(2 ** 53)), F(0), F(3 * 2 ** 53)]
+    for k in range(n // 8):
+        f = rand_leaf(rng, maxn=4, vals=huge)
+        # (every value of the huge operand a multiple of 2^53, so that the construction routes that add layers up stay exact)
+        hv = []
+        for v in f[1]:
+            v = F(2 ** 53) if v == 1 else v
+            if hv and v == hv[-1]:
+                v = F(2 ** 54) if v != F(2 ** 54) else F(3 * 2 ** 53)
+            hv.append(v)
+        f = (f[0], hv)
+        g = rand_leaf(rng, maxn=4, vals=[F(j) for j in range(-2, 3)])
+        if rng.random() < 0.5:
+            f, g = g, f
+        ca, cb = closed_pair(rng)
+        op = rng.choice(C.REL)
+        pts = leaf_points(f, g[0])
+        prog = [leaf_stmt(0, f, ca), leaf_stmt(1, g, cb)]
+        if rng.random() < 0.5:
+            prog.append(C.read(rng.choice([0, 1]), rng.choice(["values", "deltas"])))
+        prog += [C.bin_(2, op, C.reg(0), C.reg(1))] + observe_all(2, pts)
+        cases.append(mk(f"C04/magnitudes/{k}", prog, flav(rng, has_nan(f) or has_nan(g)), tags=["magnitudes", op]))
+    return cases
 
 
 def gen_C05(rng, tier):
@@ -288,6 +317,19 @@ def gen_C05(rng, tier):
         op = rng.choice(["invert", "make_boolean"])
         prog = [leaf_stmt(0, f, c), C.un(1, op, 0)] + observe_all(1, leaf_points(f))
         cases.append(mk(f"C05/{op}/{k}", prog, flav(rng, has_nan(f)), tags=[op]))
+    # truthiness is about being non-zero, however small or large: values whose product or sum leaves the binary64 range
+    # (2^-600 * 2^-600 underflows to zero, 2^600 * 2^600 overflows) or cancels (x, -x)
+    ext = [F(1, 2 ** 600), F(-3, 2 ** 600), F(2 ** 600), F(-(2 ** 600)), F(0), F(1), F(-1)]
+    for k in range(n // 8):
+        f, g = rand_leaf(rng, maxn=4, vals=ext), rand_leaf(rng, maxn=4, vals=ext)
+        c = rng.choice(SIDES)
+        op = rng.choice(C.LOG)
+        prog = [leaf_stmt(0, f, c), leaf_stmt(1, g, c), C.bin_(2, op, C.reg(0), C.reg(1))] + observe_all(2, leaf_points(f, g[0]))
+        if rng.random() < 0.5:
+            prog += [C.un(3, rng.choice(["invert", "make_boolean"]), rng.choice([0, 1]))] + observe_all(3, leaf_points(f, g[0]))
+        fl = flav(rng, has_nan(f) or has_nan(g))
+        fl["route"], fl["valdtype"] = "from_values", "float"      # (the layering routes would add 2^600 and 2^-600 up themselves)
+        cases.append(mk(f"C05/extreme/{k}", prog, fl, tags=["extreme", op]))
     return cases
 
 
@@ -393,6 +435,9 @@ def gen_C07(rng, tier):
         elif kind in ("ffill", "bfill"):
             prog.append(C.un(2, kind, 0))
         else:
+            if rng.random() < 0.2:      # a filler of a very different magnitude: defined points of f must come through untouched
+                big = F(2 ** 57)
+                g = (g[0], [None if v is None else v * big for v in g[1]])
             prog += [leaf_stmt(1, g, cb), C.fillg(2, 0, 1)]
             nanleaf = nanleaf or has_nan(g)
         prog += observe_all(2, pts)
@@ -1207,6 +1252,9 @@ def gen_C15(rng, tier):
         P.append(C.query(1, "corr", b=2, lo=F(-4), hi=F(0)))
         P.append(C.query(0, "cov", b=2, lo=F(5), hi=F(9)))
         P.append(C.resample(5, 0, "mean", rng.choice(["left", "right"]), [(F(0), F(2)), (F(2), F(4))]))
+        # the cov / corr MATRIX of the three: members with steps and opposite sides anywhere in it must be refused, not
+        # turned into an undefined entry
+        P.append(C.arrcov([0, 1, 2], rng.choice(["cov", "corr"]), F(0), F(4)))
         fl = flav(rng, True)
         fl["coll"] = rng.choice(COLLS)
         cases.append(mk(f"C15/agg/{i}", P, fl, mode="tol", tags=["grid-agg"]))
@@ -1395,6 +1443,10 @@ def gen_C19(rng, tier):
         off, scale = (F(2) ** 27, F(1)) if k % 10 == 3 else ((F(0), F(1, 2 ** 20)) if k % 10 == 7 else (F(0), F(1)))
         vals_ = [off + scale * F(j, 2) for j in range(-4, 5)]
         f, g = rand_leaf(rng, maxn=4, vals=vals_), rand_leaf(rng, maxn=4, vals=vals_)
+        if off:      # every value near the offset (also the ones towards -inf / +inf): a function that is 0 here and 2^27 there has
+            # a covariance of order 10^7 made of terms of order 10^16 - ill-conditioned in binary64 whatever the formula
+            f = (f[0], [None if v is None else (v if v >= off / 2 else off + v) for v in f[1]])
+            g = (g[0], [None if v is None else (v if v >= off / 2 else off + v) for v in g[1]])
         c = rng.choice(SIDES)
         pts = leaf_points(f, g[0])
         lo = rng.choice(pts)
